@@ -91,6 +91,65 @@ def for_loops_(b):
     return for_loops(b)
 
 
+def classifier_arms(prog, pvn, b):
+    """`match classify(x, y) { V1 | V2 => .., V3 => .. }` in `b`, where `classify` is a crate function of b's two term parameters that returns a
+    field-less enum and builds each variant under eq / parent_of / child_of tests of its own two parameters.
+    -> {"fn": classifier body, "switch": bb of the match, "targets": [(variant name, target bb)], "rel": {variant: [(upper params of b, lower
+    params of b)]}, "why": {variant: text}} or None.  A variant built under no positive test (the `else` of the chain) has no relation."""
+    from engines import positive_edges
+    for cbi, ct in b.calls():
+        cl = prog.bodies.get(ct.callee.res or "")
+        if cl is None or cl.kind not in ("Fn", "AssocFn") or len(ct.args) != 2 or cl.natural_loops():
+            continue
+        amap = {}
+        for i, a in enumerate(ct.args, 1):
+            ps = params_of(pvn.of_operand(b, a), b.id)
+            if len(ps) == 1:
+                amap[i] = next(iter(ps))
+        if sorted(amap.values()) != [1, 2]:
+            continue
+        built = {}
+        adt = None
+        for pos, st in cl.stmts():
+            if st.k == "assign" and st.place.local == 0 and st.rv["k"] == "agg" and st.rv.get("agg") == "adt" and not st.rv.get("ops"):
+                info = prog.adts.get(st.rv.get("adt") or "", {})
+                if info.get("enum") and all(not v.get("fields") for v in info.get("variants", [])):
+                    adt = info
+                    built.setdefault(st.rv.get("variant"), []).append(pos[0])
+        if adt is None or len(built) < 2:
+            continue
+        names = [v["name"] for v in adt["variants"]]
+        rel, why = {}, {}
+        for v, bbs in built.items():
+            rs = []
+            for gbi, gt in cl.calls():
+                gm = gt.callee.method
+                if gm not in ("child_of", "parent_of", "eq") or len(gt.args) != 2:
+                    continue
+                g0, g1 = params_of(pvn.of_operand(cl, gt.args[0]), cl.id), params_of(pvn.of_operand(cl, gt.args[1]), cl.id)
+                if not (len(g0) == 1 and len(g1) == 1 and g0 | g1 == {1, 2}):
+                    continue
+                if all(any(cl.edge_dominates(e, bb_) for e in positive_edges(cl, pvn, gbi)) for bb_ in bbs):
+                    m0, m1 = {amap[next(iter(g0))]}, {amap[next(iter(g1))]}
+                    if gm == "eq":
+                        rs.append(({1, 2}, {1, 2}))
+                    elif gm == "child_of":
+                        rs.append((m1, m0))
+                    else:
+                        rs.append((m0, m1))
+                    why[v] = "%s(%s, %s) holds" % (gm, cl.local_name(next(iter(g0))), cl.local_name(next(iter(g1))))
+            rel[v] = rs
+        # the match on the call's result
+        for sbi in sorted(b.reach):
+            x = b.blocks[sbi].term
+            if x.k != "switch" or not any(a[0] == "call" and a[3] == b.id and a[4] == cbi for a in pvn.of_operand(b, x.discr)):
+                continue
+            tg_ = [(names[v], tg) for v, tg in x.targets if isinstance(v, int) and 0 <= v < len(names)]
+            if tg_:
+                return {"fn": cl, "switch": sbi, "targets": tg_, "rel": rel, "why": why}
+    return None
+
+
 def run(ck, prog, ctx):
     ck.rule("TAINT", "source-to-sink: unchecked append sink reached only by iterated group elements (DESIGN 3.14)")
     ck.rule("DOM", "search-arm dominance and returned flag (DESIGN 3.6/3.10)")
@@ -886,7 +945,39 @@ def run(ck, prog, ctx):
                     justified.append(x)
                     break
         extra_src = [x for x in extra_src if not any(x is j for j in justified)]
-        ck.ob("ROLE", name + "/only-result", not extra_src, "%s returns %s" % (name, "the operator's result on every path" if not extra_src else "on some path `%s` instead of the result of `%s`" % (
+        # ... or under the arm of a CLASSIFIER: a crate function of the two terms that returns an enum whose variants are constructed under
+        # eq / parent_of / child_of tests (`match self.relationship_to(other) { Same | Ancestor => self.all_parent_ids().clone(), .. }`).  Each
+        # variant stands for the relation under which it is built; an arm is judged under the relations of the variants it takes.
+        arms_ = classifier_arms(prog, pvn, b)
+        if arms_ and extra_src:
+            if need_ids is True:
+                ck.undecided("ROLE", name + "/only-result", "%s answers per arm of the classifier %s; the inclusive form (own ids added per arm) is not evaluated" % (name, arms_["fn"].short), where=b.where(t.line))
+                ck.undecided("ROLE", name + "/ids", "%s: own ids are added per arm of the classifier %s: not evaluated" % (name, arms_["fn"].short), where=b.where(t.line))
+                extra_src = None
+            else:
+                left_ = []
+                for x in extra_src:
+                    okx = False
+                    if x[0] == "call" and x[1].callee.method == "clone" and x[1].args:
+                        src_at = pv.of_operand(b, x[1].args[0])
+                        zs = params_of(src_at, b.id)
+                        xbb = next(bi_ for bi_, t_ in b.calls() if t_ is x[1])
+                        vs_ = [v for v, tg in arms_["targets"] if b.edge_dominates((arms_["switch"], tg), xbb)]
+                        if len(zs) == 1 and "all_parents" in field_names(src_at, "HpoTerm") and vs_ and all(v in arms_["rel"] and arms_["rel"][v] for v in vs_):
+                            z_ = next(iter(zs))
+                            okx = all(all(z_ in (up_ if want == "and" else lo_) for up_, lo_ in arms_["rel"][v]) for v in vs_)
+                            if not okx:
+                                bad_v = [v for v in vs_ if not all(z_ in (up_ if want == "and" else lo_) for up_, lo_ in arms_["rel"][v])]
+                                ck.ob("ROLE", name + "/arm/" + "+".join(bad_v), False, "%s: in the arm `%s` of %s (built where %s) the answer is a copy of `%s`'s ancestor set, but the %s of the two sets is there the %s term's set" % (
+                                    name, " | ".join(bad_v), arms_["fn"].short, arms_["why"].get(bad_v[0], "?"), b.local_name(z_), "intersection" if want == "and" else "union", "UPPER (ancestor)" if want == "and" else "LOWER (descendant)"), where=b.where(x[1].line))
+                                okx = True  # reported with its own key
+                    if not okx:
+                        left_.append(x)
+                extra_src = left_
+        if extra_src is None:
+            pass
+        else:
+          ck.ob("ROLE", name + "/only-result", not extra_src, "%s returns %s" % (name, "the operator's result on every path" if not extra_src else "on some path `%s` instead of the result of `%s`" % (
             (extra_src[0][1].callee.method + "(..)") if extra_src[0][0] == "call" else "a constant / another value", "&" if kind == "and" else "|")), where=b.where(extra_src[0][1].line if extra_src and extra_src[0][0] == "call" else t.line))
         ck.ob("ROLE", name + "/operator", kind == want, "%s combines the ancestor sets with `%s` (expected `%s`)" % (name, "&" if kind == "and" else "|", "&" if want == "and" else "|"), where=b.where(t.line))
         (p0, f0), (p1, f1) = sides(b, t.args[0]), sides(b, t.args[1])
@@ -905,6 +996,8 @@ def run(ck, prog, ctx):
                 decision_blocks |= {gbi for gbi, gt in b0.calls() if gbi != bi2 and any(b0.edge_dominates(e_, bi2) for e_ in positive_edges(b0, pvn, gbi))}
             skipped_ = _spa(b0, decision_blocks)
             ck.ob("ROLE", "%s/ids/decided-on-every-path" % name, not skipped_, "%s: %s" % (name, "every path that returns decides about the terms' own ids (a guarded insert or its test)" if not skipped_ else "some path RETURNS without deciding about the terms' own ids (an early return in front of the guarded inserts): for a term without common strict ancestors (the root) its own id is missing from the inclusive set"), where=b0.where(own_inserts[0][1].line))
+        elif need_ids is True and extra_src is None:
+            pass  # per arm of a classifier: recorded as undecided above
         elif need_ids is True:
             ck.ob("ROLE", name + "/ids", "id" in f0 and "id" in f1, "%s adds %s (expected both terms' own ids)" % (name, sorted((f0 | f1) & {"id"}) or "no id"), where=b.where(t.line))
         elif need_ids is False:
